@@ -84,6 +84,80 @@ def run(ctx):
                 ok2 = any(c.get("v") == 1 for c in o.consts()) and any(cc.endswith("::len") for cc in o.callees())
                 ctx.ob("R1", "trim-only-delimiter", ok and ok2, "the last byte may be dropped only when it equals the delimiter, and exactly one byte (range ..len-1); guards: %s; range: %s" % (prim.guards_fmt(gs), o.fmt()), fn=bd, where=prim.site(bd, b), how="dominating guard")
 
+    # ---- R1 (cont.) every field of -0/-d input is an argument, the empty one included -----------------------------
+    if bd is not None:
+        heads = [h for h in bd.reachable() if any(bd.dominates(h, s) for s in bd.preds()[h])]
+        backs = [(h, s) for h in heads for s in bd.preds()[h] if bd.dominates(h, s)]
+        flags = set()
+        okr = True
+        desc = []
+        for h, s in backs:
+            atoms = prim.norm_guards(prim.dominating_guards(bd, s))
+            fl = [(at["rel"], at["a"].strip().a) for at in atoms if at["a"].strip().k == "field" and at["a"].strip().a not in ("delimiter", "rd") and any(x.k == "arg" and x.a.get("name") == "self" for x in at["a"].walk())
+                  and at["b"].strip().k == "const" and at["b"].strip().a.get("v") is True]
+            desc.append(fl)
+            if not fl:
+                okr = False
+            flags |= {(r_, n_) for r_, n_ in fl}
+        ctx.ob("R1", "retry-only-by-configuration", okr and len(flags) == 1,
+               "ByteDelimitedArgumentReader::next reads again without delivering an argument on %d path(s), under reader flags %s; an empty field between two delimiters is an argument of -0/-d input "
+               "(`printf 'a\\0\\0b\\0' | xargs -0` has three), so dropping it may only happen under a flag of the reader that do_xargs clears for -0/-d" % (len(backs), desc),
+               fn=bd, where=prim.site(bd, backs[0][1]) if backs else None, how="loop back edges + dominating guards (normal form)")
+        dx_ = prog.fns.get(X + "do_xargs")
+        if okr and len(flags) == 1 and dx_ is not None:
+            rel, fname = list(flags)[0]
+            keep_when_true = rel == "ne"          # retry (drop) only while the flag is false
+            # who writes the flag: the constructor default and one builder taking the value
+            writers = []
+            for f2 in prog.fns.values():
+                if "ByteDelimitedArgumentReader" not in f2.path or "::tests::" in f2.path:
+                    continue
+                for b2 in f2.reachable():
+                    for s2 in f2.blocks[b2].stmts:
+                        if s2.rv is not None and s2.rv.k == "agg" and fname in (s2.rv.j.get("fields") or []) and "ByteDelimitedArgumentReader" in str(s2.rv.j.get("adt")):
+                            writers.append((f2, "init", prim.origin_of_operand(f2, s2.rv.ops[s2.rv.j["fields"].index(fname)]).strip()))
+                        elif s2.lhs is not None and s2.lhs.proj and isinstance(s2.lhs.proj[-1], dict) and s2.lhs.proj[-1].get("n") == fname and s2.rv is not None:
+                            writers.append((f2, "set", prim.origin_of_operand(f2, s2.rv.ops[0]).strip() if s2.rv.ops else None))
+            setters = [w for w in writers if w[1] == "set" and w[2] is not None and w[2].k == "arg"]
+            inits = [w for w in writers if w[1] == "init"]
+            okw = len(setters) == 1 and all(w[2].k == "const" for w in inits) and len(writers) == len(setters) + len(inits)
+            ctx.ob("R1", "flag-writers", okw, "the reader flag `%s` is written by %s; oracle: constant defaults and one builder storing its argument" % (fname, [(prim.short(w[0].path), w[1], w[2].fmt() if w[2] else "?") for w in writers]), fn=bd, how="field writers")
+            if okw:
+                setter = setters[0][0]
+                calls = [(b3, t3) for b3, t3 in dx_.calls() if t3.callee == setter.path]
+                okv = len(calls) == 1
+                why = "%d call(s) of %s in do_xargs" % (len(calls), prim.short(setter.path))
+                if okv:
+                    b3, t3 = calls[0]
+                    ai = setters[0][2].a.get("idx", 2) - 1
+                    vo = prim.origin_of_operand(dx_, t3.args[ai]).strip()
+                    alts = []
+                    if vo.k == "var":
+                        for d in [d for d in prim.local_defs(dx_).get(vo.a["local"], []) if d[1] != "partial"]:
+                            alts.append((prim._origin_of_def(dx_, d, 8, set()).strip(), prim.norm_guards(prim.dominating_guards(dx_, d[0]))))
+                    else:
+                        alts.append((vo, []))
+                    is_null = lambda x: x.strip().k == "field" and x.strip().a == "null"
+                    is_dsome = lambda x: x.strip().k == "call" and x.strip().a["name"] == "is_some" and any(y.k == "field" and y.a == "delimiter" for y in x.walk())
+                    terms = set()
+                    good = True
+                    for o3, ats in alts:
+                        if o3.k == "const" and o3.a.get("v") is True:
+                            hit = [n for n, pr in (("null", is_null), ("delimiter", is_dsome)) if prim.atom_holds(ats, "eq", pr, lambda x: x.strip().k == "const" and x.strip().a.get("v") is True)]
+                            good = good and len(hit) >= 1
+                            terms |= set(hit[:1])
+                        elif is_null(o3):
+                            terms.add("null")
+                        elif is_dsome(o3):
+                            terms.add("delimiter")
+                        elif o3.k == "bin" and o3.a == "BitOr" and any(is_null(k_) for k_ in o3.kids) and any(is_dsome(k_) for k_ in o3.kids):
+                            terms |= {"null", "delimiter"}
+                        else:
+                            good = False
+                    okv = good and terms == {"null", "delimiter"} and keep_when_true
+                    why = "the flag receives %s (keeps empty fields when %s)" % (" | ".join(o3.fmt()[-60:] for o3, _ in alts), "true" if keep_when_true else "false")
+                ctx.ob("R1", "empty-fields-kept-for-0-and-d", okv, "%s; oracle: true exactly when -0 or -d was given (options.null || options.delimiter.is_some()); the newline-delimited lines of -I/-L are the only place where an empty item is skipped" % why,
+                       fn=dx_, where=prim.site(dx_, calls[0][0]) if calls else None, how="definitions of the flag value + dominating guards (normal form)")
     # ---- whitespace reader -----------------------------------------------------------------------
     ws = ctx.fn("R3", WS)
     if ws is None:
